@@ -34,7 +34,7 @@ PROPS["C16"] = {
 RECV_STUBS = {"google.golang.org/protobuf/proto.Unmarshal": "github.com/tsuna/gohbase/region.vUnmarshal"}
 
 PROPS["C11"] = {
-    "files": ["hrpc/c11_cells.go", "region/fakes.go", "region/c11_receive.go"],
+    "files": ["hrpc/c11_cells.go", "region/fakes.go", "region/c11_receive.go", "region/c15_compressor.go"],
     "claim": "No byte string up to N bytes in the position of a cellblock, and no structurally valid Get/Mutate/Scan response whose "
              "counts disagree with the data, makes the cell decoders panic, read beyond the received bytes or return a cell that is "
              "not fully inside the buffer.",
@@ -57,6 +57,8 @@ PROPS["C11"] = {
          "params": {"quick": {"N": 26, "MAXCELLS": 1}, "thorough": {"N": 52, "MAXCELLS": 2}}},
         {"name": "receive_scan", "pkg": "region", "entry": "VerifReceiveScan", "stubs": RECV_STUBS, "reach": ["answered", "left-registered"],
          "params": {"quick": {"N": 26, "MAXCELLS": 1}, "thorough": {"N": 52, "MAXCELLS": 2}}},
+        {"name": "decompress_arbitrary", "pkg": "region", "entry": "VerifDecompressArbitrary", "reach": ["accepted"],
+         "params": {"quick": {"ENC": 2, "N": 14}, "thorough": {"ENC": 2, "N": 24}}},
         {"name": "receive_multi_dispatch", "pkg": "region", "entry": "VerifReceiveMulti", "stubs": RECV_STUBS, "reach": ["answered", "left-registered"],
          "params": {"quick": {"CELLS": 0, "N": 0, "R": 2, "A": 1, "MAXCELLS": 1}, "thorough": {"CELLS": 0, "N": 0, "R": 2, "A": 2, "MAXCELLS": 1}}},
         {"name": "receive_multi_cells", "pkg": "region", "entry": "VerifReceiveMulti", "stubs": RECV_STUBS, "reach": ["answered", "left-registered"],
@@ -93,11 +95,11 @@ PROPS["C15"] = {
                     "allocation sizes taken from the wire are bounded by ALLOC (larger ones are outside the claim)"],
     "jobs": [
         {"name": "compress_roundtrip", "pkg": "region", "entry": "VerifCompressRoundTrip", "reach": ["roundtrip"],
-         "params": {"quick": {"CHUNK": 2, "ENC": 2, "BUFS": 3, "S": 3}, "thorough": {"CHUNK": 3, "ENC": 2, "BUFS": 3, "S": 5}}},
+         "params": {"quick": {"CHUNK": 2, "ENC": 3, "BUFS": 2, "S": 3}, "thorough": {"CHUNK": 2, "ENC": 3, "BUFS": 3, "S": 3}}},
         {"name": "compress_roundtrip_bigchunk", "pkg": "region", "entry": "VerifCompressRoundTrip", "reach": ["roundtrip"],
          "params": {"quick": {"CHUNK": 16, "ENC": 2, "BUFS": 2, "S": 3}, "thorough": {"CHUNK": 6, "ENC": 3, "BUFS": 3, "S": 4}}},
         {"name": "decompress_conforming", "pkg": "region", "entry": "VerifDecompressConforming", "reach": ["conforming", "truncated"],
-         "params": {"quick": {"ENC": 1, "B": 2, "C": 1, "S": 2}, "thorough": {"ENC": 2, "B": 2, "C": 2, "S": 2}}},
+         "params": {"quick": {"CHUNK": 1, "ENC": 2, "B": 2, "C": 1, "S": 2}, "thorough": {"CHUNK": 1, "ENC": 3, "B": 2, "C": 2, "S": 2}}},
         {"name": "decompress_arbitrary", "pkg": "region", "entry": "VerifDecompressArbitrary", "reach": ["accepted"],
          "params": {"quick": {"ENC": 2, "N": 14}, "thorough": {"ENC": 2, "N": 24}}},
     ],
